@@ -307,6 +307,7 @@ type c04Spec struct {
 	KeepCtx bool      `json:"keep_context,omitempty"`            // the caller's context stays alive after the call: background work must end by itself or at Close
 	Slow    bool      `json:"slow_consumer,omitempty"`           // search: the caller reads the result channel only once nothing else moves
 	K       int       `json:"bucket_size,omitempty"`             // 0: 20
+	Offline bool      `json:"offline_option,omitempty"`          // the call carries routing.Offline (the code ignores the quorum then; nothing else changes)
 	HangFix bool      `json:"hanging_fixup_recipient,omitempty"` // the first corrective PUT_VALUE handed to the network is never answered while the others are
 	Resps   []c04Resp `json:"resps"`                             // responder i answers with Resps[i]
 	Node    string    `json:"node"`                              // pk: what the peer itself answers: correct wrongkey garbage miskeyed norec error
@@ -684,6 +685,9 @@ func (r *c04Run) run(t *testing.T) {
 	if spec.Quorum >= 0 {
 		opts = append(opts, dht.Quorum(spec.Quorum))
 	}
+	if spec.Offline {
+		opts = append(opts, routing.Offline)
+	}
 	go func() {
 		defer close(done)
 		defer func() {
@@ -962,6 +966,7 @@ func c04GenSpec(r *vfRand, i int) c04Spec {
 		s.Op = "pk"
 	}
 	s.Quorum = []int{0, 0, 1, 2, 3, 20, -1}[r.Intn(7)]
+	s.Offline = r.Chance(12)
 	n := 2 + r.Intn(11)
 	base := 3 + r.Intn(4)
 	if s.Op == "pk" {
@@ -1195,7 +1200,7 @@ func c04Emit(cs *vfCases, run *c04Run, meta map[string]any) {
 		node = c04Resp{Kind: s.Node}.coq()
 	}
 	quorum := s.Quorum
-	if quorum < 0 {
+	if quorum < 0 || s.Offline {
 		quorum = 0
 	}
 	if s.Op == "pk" {
